@@ -10,13 +10,18 @@ Open Scope Z_scope.
 
 (* encoder: a container met for the first time when n containers have been registered gets
    ordinal n and keeps it whatever is registered later ... *)
-Theorem C04_encoder_ordinal_is_registration_count : forall st k a, a <> 0 -> ref_find (erefs st) a 0 = None ->
-  forall more, ref_find (erefs (snd (check_ref st k a)) ++ more) a 0 = Some (Z.of_nat (length (erefs st)), k).
+Theorem C04_encoder_ordinal_is_registration_count : forall st k a, a <> 0 -> ref_find (erefs st) a k 0 = None ->
+  forall more, ref_find (erefs (snd (check_ref st k a)) ++ more) a k 0 = Some (Z.of_nat (length (erefs st))).
 Proof. exact encoder_ordinal_is_registration_count. Qed.
 Print Assumptions C04_encoder_ordinal_is_registration_count.
 (* ... and a later occurrence of the same container is written as a reference to that ordinal *)
-Theorem C04_encoder_second_occurrence_is_ref : forall st k a i, ref_find (erefs st) a 0 = Some (i, k) -> check_ref st k a = (Some i, st).
+Theorem C04_encoder_second_occurrence_is_ref : forall st k a i, ref_find (erefs st) a k 0 = Some i -> check_ref st k a = (Some i, st).
 Proof. exact encoder_second_occurrence_is_ref. Qed.
+(* a list and its first element (a struct and its first field) share an address: a container
+   of another kind at the same address neither hides this one nor takes its ordinal *)
+Theorem C04_kinds_do_not_collide : forall refs a k k' i, rkind_eqb k k' = false ->
+  ref_find ((a, k') :: refs) a k i = ref_find refs a k (i + 1).
+Proof. exact encoder_kinds_do_not_collide. Qed.
 (* nulls, strings, byte slices, timestamps and nil/empty maps consume no ordinal on the encoder
    side (by computation on the model's definitions) *)
 Theorem C04_fillers_consume_no_ordinal : forall st st', 
